@@ -78,6 +78,9 @@ RECENT_DATE = datetime.date(2023, 6, 1)
 
 _CONTAINS_CONTROL_CHAR_RE = re.compile(r"[^-!#$%&'*+.^_`|~0-9a-zA-Z]")
 
+# A host is written verbatim into the CONNECT request line and its Host header.
+_TUNNEL_HOST_DISALLOWED_RE = re.compile(r"[\x00-\x20\x7f]")
+
 
 class HTTPConnection(_HTTPConnection):
     """
@@ -228,6 +231,11 @@ class HTTPConnection(_HTTPConnection):
         if scheme not in ("http", "https"):
             raise ValueError(
                 f"Invalid proxy scheme for tunneling: {scheme!r}, must be either 'http' or 'https'"
+            )
+        match = _TUNNEL_HOST_DISALLOWED_RE.search(host)
+        if match:
+            raise ValueError(
+                f"Tunnel host can't contain control characters or spaces: {host!r} (found at least {match.group()!r})"
             )
         super().set_tunnel(host, port=port, headers=headers)
         self._tunnel_scheme = scheme
